@@ -207,18 +207,37 @@ func c04ValCheck(c *C04Val) (msg string, cyclic bool, discard string) {
 	if o.Class != "ok" {
 		return fmt.Sprintf("json() of an expressible, acyclic value failed: %s (%s)", o.Class, o.Msg), false, ""
 	}
-	got, err := jsonx.Parse(string(o.Stdout))
+	// (one json() text per print; a program may serialise the same container again after changing it)
+	gots, err := c04ParseAll(string(o.Stdout))
 	if err != nil {
 		return fmt.Sprintf("json() returned invalid JSON (%v): %s", err, clip(string(o.Stdout))), false, ""
 	}
-	want, err := jsonx.Parse(string(rr.Out))
+	wants, err := c04ParseAll(string(rr.Out))
 	if err != nil {
 		return "harness: reference json is not JSON: " + err.Error(), false, ""
 	}
-	if !jsonx.Equal(got, want) {
-		return fmt.Sprintf("json() does not parse back to the value\n value:  %s\n json(): %s", clip(jsonx.Compact(want)), clip(jsonx.Compact(got))), false, ""
+	if len(gots) != len(wants) {
+		return fmt.Sprintf("%d json() texts were printed, the reference prints %d", len(gots), len(wants)), false, ""
+	}
+	for k := range gots {
+		if !jsonx.Equal(gots[k], wants[k]) {
+			return fmt.Sprintf("json() text %d does not parse back to the value at that time\n value:  %s\n json(): %s", k+1, clip(jsonx.Compact(wants[k])), clip(jsonx.Compact(gots[k]))), false, ""
+		}
 	}
 	return "", false, ""
+}
+
+func c04ParseAll(text string) ([]*jsonx.Val, error) {
+	var vals []*jsonx.Val
+	for strings.TrimSpace(text) != "" {
+		v, end, err := jsonx.ParsePrefix(text)
+		if err != nil {
+			return nil, err
+		}
+		vals = append(vals, v)
+		text = text[end:]
+	}
+	return vals, nil
 }
 
 func genC04Val(t *rapid.T) (*C04Val, map[string]bool) {
@@ -265,6 +284,18 @@ func genC04Val(t *rapid.T) (*C04Val, map[string]bool) {
 		body = append(body, ast.ExprS(ast.Set(ast.Dollar(), rootExpr)))
 	} else {
 		body = append(body, ast.Print(ast.Call(ast.Id("json"), rootExpr)))
+		if rootExpr.K == "id" && (root.kind == "arr" || root.kind == "obj") && len(root.kids) > 0 && rapid.Bool().Draw(t, "again") {
+			// the same container serialised again after a change that keeps its size
+			var tgt *ast.Node
+			if root.kind == "arr" {
+				tgt = ast.Idx(rootExpr.Clone(), ast.Num("0"))
+			} else {
+				tgt = ast.Mem(rootExpr.Clone(), root.keys[0])
+			}
+			body = append(body, ast.ExprS(ast.Set(tgt, ast.Str("changed"))), ast.Print(ast.Call(ast.Id("json"), rootExpr.Clone())),
+				ast.ExprS(ast.Set(tgt.Clone(), ast.Arr(ast.Num("1")))), ast.ExprS(ast.Method(tgt.Clone(), "push", ast.Num("2"))), ast.Print(ast.Call(ast.Id("json"), rootExpr.Clone())))
+			g.labels["json-again-after-change"] = true
+		}
 	}
 	c.Case = &DCase{Prog: ast.Prog(ast.Rule("pattern", nil, ast.Block(body...))),
 		Files: []DFile{{Name: "in", Docs: []string{`{"sub":{"x":[],"y":{},"z":[1,{"k":null}]}}`}}}}
